@@ -64,6 +64,7 @@ type config struct {
 	Gas     int
 	Fee, Wd []string // 40 hex digits, no 0x
 	Seed    int
+	Flaw    string // none | extrashare | firstshare | aggsig | opsig | enrsig | creatorsig  (fort only)
 }
 
 func ints(v any) []int {
@@ -90,7 +91,7 @@ func parseCfg(s step) config {
 	b, _ := s["comp"].(bool)
 	return config{Src: drv.Str(s["src"]), Art: drv.Str(s["art"]), Ver: drv.Str(s["ver"]), N: drv.Num(s["n"]),
 		T: drv.Num(s["t"]), V: drv.Num(s["v"]), Net: drv.Str(s["net"]), Amounts: ints(s["amounts"]), Comp: b,
-		Gas: drv.Num(s["gas"]), Fee: strs(s["fee"]), Wd: strs(s["wd"]), Seed: drv.Num(s["seed"])}
+		Gas: drv.Num(s["gas"]), Fee: strs(s["fee"]), Wd: strs(s["wd"]), Seed: drv.Num(s["seed"]), Flaw: drv.Str(s["flaw"])}
 }
 
 func verNum(v string) int {
@@ -290,13 +291,55 @@ func (r *run) createForT() (err error) {
 			}
 		}
 	}
+	// a flaw built in by the writer; hashes and the remaining signatures are made consistent with it afterwards
+	switch c.Flaw {
+	case "extrashare", "firstshare":
+		idx := 0
+		if c.Flaw == "extrashare" {
+			idx = c.N - 1
+		}
+		sk, err := tbls.GenerateSecretKey()
+		if err != nil {
+			return err
+		}
+		pk, err := tbls.SecretToPublicKey(sk)
+		if err != nil {
+			return err
+		}
+		shares[0][idx] = sk
+		lock.Validators[0].PubShares[idx] = pk[:]
+	case "opsig":
+		o := lock.Definition.Operators
+		o[0].ConfigSignature, o[1].ConfigSignature = o[1].ConfigSignature, o[0].ConfigSignature
+	case "enrsig":
+		o := lock.Definition.Operators
+		o[0].ENRSignature, o[1].ENRSignature = o[1].ENRSignature, o[0].ENRSignature
+	case "creatorsig":
+		other, err := k1.GeneratePrivateKey()
+		if err != nil {
+			return err
+		}
+		lock.Definition.Creator.ConfigSignature, err = cluster.SignClusterDefinitionHash(other, lock.Definition)
+		if err != nil {
+			return err
+		}
+	}
+	if c.Flaw == "opsig" || c.Flaw == "enrsig" || c.Flaw == "creatorsig" {
+		lock.Definition, err = lock.Definition.SetDefinitionHashes()
+		if err != nil {
+			return err
+		}
+	}
 	lock, err = lock.SetLockHash()
 	if err != nil {
 		return err
 	}
 	var sigs []tbls.Signature
-	for _, ss := range shares {
-		for _, s := range ss {
+	for vi, ss := range shares {
+		for si, s := range ss {
+			if c.Flaw == "aggsig" && vi == len(shares)-1 && si == len(ss)-1 {
+				continue // the aggregate lacks one share's signature
+			}
 			sig, err := tbls.Sign(s, lock.LockHash)
 			if err != nil {
 				return err
@@ -1243,5 +1286,4 @@ func TestExec(t *testing.T) {
 			tr.Emit(e)
 		}
 	}
-	_ = k1.PrivKeyBytesLen
 }
